@@ -1101,7 +1101,7 @@ def gen_cases(rng, tier, scale=1.0):
                                   {"op": "setattr", "field": fl[1], "value": v1}]})
     for sname in A_SHAPES:
         for _ in range(reps_a):
-            add("A", sname, 2, max_pre=max_pre, cap=150 if quick else 1000)
+            add("A", sname, 2, max_pre=max_pre, cap=120 if quick else 1000)
         if sname in ("array_int", "shared_set", "map_int") or not quick:
             add("A", sname, 3, max_pre=2, cap=120 if quick else 600)
     for sname, v0, v1 in CANONICAL_E:
@@ -1140,17 +1140,17 @@ def gen_cases(rng, tier, scale=1.0):
         vk = set(shape(sname).extra["vk"].values())
         if any(k.startswith("opt-") for k in vk):
             # directed: one thread passes an explicit None, the other None / a value the earlier options reject
-            add_twin("E", sname, 2, directed=[None, None], max_pre=2, cap=80 if quick else 400, **ykw)
-            add_twin("E", sname, 2, directed=[None, 2.5], max_pre=2, cap=80 if quick else 400, **ykw)
-        for _ in range(max(1, int((1 if quick else 3) * scale))):
-            add_twin("E", sname, 2, max_pre=max_pre, cap=80 if quick else 400, **ykw)
-        if not quick:
-            add_twin("E", sname, 3, max_pre=2, cap=300, **ykw)
+            add_twin("E", sname, 2, directed=[None, None], max_pre=2, cap=60 if quick else 250, **ykw)
+            add_twin("E", sname, 2, directed=[None, 2.5], max_pre=2, cap=60 if quick else 250, **ykw)
+        for _ in range(max(1, int((1 if quick else 2) * scale))):
+            add_twin("E", sname, 2, max_pre=max_pre, cap=60 if quick else 250, **ykw)
+        if not quick and any(k.startswith("opt-") for k in vk):
+            add_twin("E", sname, 3, max_pre=2, cap=200, **ykw)
     for sname in TWIN_A_SHAPES:
-        for _ in range(max(1, int((1 if quick else 3) * scale))):
-            add_twin("A", sname, 2, max_pre=max_pre, cap=100 if quick else 600)
-    for sname in (rng.sample(TWIN_SHAPES, 6) if quick else TWIN_SHAPES):
-        add_twin("B", sname, 2, max_pre=max_pre, nsched=20 if quick else 80)
+        for _ in range(max(1, int((1 if quick else 2) * scale))):
+            add_twin("A", sname, 2, max_pre=max_pre, cap=100 if quick else 400)
+    for sname in (rng.sample(TWIN_SHAPES, 4) if quick else TWIN_SHAPES):
+        add_twin("B", sname, 2, max_pre=max_pre, nsched=20 if quick else 50)
     # fixed operation mixes (values still random): cold-cache serialization races, scalar assignment, wrappers
     for sname, ops in CANONICAL_B:
         ths = []
@@ -1166,5 +1166,5 @@ def gen_cases(rng, tier, scale=1.0):
     reps_b = max(1, int((1 if quick else 4) * scale))
     for sname in ALL_SHAPES:
         for _ in range(reps_b):
-            add("B", sname, 3 if rng.random() < 0.2 else 2, max_pre=max_pre, nsched=25 if quick else 80)
+            add("B", sname, 3 if rng.random() < 0.2 else 2, max_pre=max_pre, nsched=20 if quick else 80)
     return cases
